@@ -138,6 +138,66 @@ theorem walk_row_typed (c : TCtx) (env : Env) (sel : Option String) (e : Expr) :
     (kindOf c env e, typeOf c env sel e) ∈ walkExpr c env sel e := by
   cases e <;> simp [walkExpr]
 
+/-! ### the symbol table: scopes, visibility, re-declaration
+
+  Scope rule of the model (`Env` = stack of scopes, innermost first; the real `SymbolTable` is the same stack):
+  a name is looked up through ALL enclosing scopes (innermost first), so a name visible from an outer block is
+  never re-declared inside (no shadowing: assigning / selecting it in an inner block uses the outer variable);
+  a statement declares at most one variable, only when the name is not visible, always in the innermost scope;
+  entering a block pushes an empty scope, leaving it drops everything declared inside; the control variable of
+  `for each` is declared in the scope that holds the loop (it outlives the loop); after a block has ended its
+  names are unknown again, and declaring one again creates a NEW variable. -/
+
+/-- Any statement changes the environment by at most one declaration of a not-yet-visible name; in particular
+    whatever the nested blocks of a compound statement declare is not visible after it. -/
+theorem scope_one_declaration (c : TCtx) (env : Env) (s : Stmt) :
+    (walkStmt c env s).1 = env ∨
+    ∃ m info, findVar c env m = none ∧ (walkStmt c env s).1 = env.declare m info :=
+  walkStmt_step c env s
+
+/-- block push / pop is balanced and outer scopes are never touched: after any statement the scope stack has
+    the same enclosing scopes (only the innermost one may have grown) -/
+theorem scope_stack_balanced (c : TCtx) (env : Env) (hne : env ≠ []) (s : Stmt) :
+    ∃ top, (walkStmt c env s).1 = top :: env.tail := by
+  rcases walkStmt_step c env s with h | ⟨m, info, _, h⟩
+  · rw [h]; cases env with
+    | nil => exact absurd rfl hne
+    | cons a r => exact ⟨a, rfl⟩
+  · rw [h]; exact declare_shape env hne m info
+
+/-- a visible variable stays the same variable (same kind, type, class) through any statement: the same name
+    used again — assigned, selected into, created, looped over, also inside nested blocks — gets the same V_VAR -/
+theorem visible_preserved (c : TCtx) (env : Env) (s : Stmt) (n : String) (v : VarInfo)
+    (h : findVar c env n = some v) : findVar c (walkStmt c env s).1 n = some v := by
+  rcases walkStmt_step c env s with h1 | ⟨m, info, hm, h1⟩
+  · rw [h1]; exact h
+  · rw [h1]
+    have hne : n ≠ m := by intro e; rw [e, hm] at h; cases h
+    rw [findVar_declare_other c env n m info hne]; exact h
+
+/-- variables declared inside the block(s) of `while` / `if` are not visible after the statement, whatever the
+    blocks contain -/
+theorem block_locals_dropped (c : TCtx) (env : Env) (e : Expr) (b : Block) (el : Elifs) (els : Else) :
+    (walkStmt c env (.while_ e b)).1 = env ∧ (walkStmt c env (.if_ e b el els)).1 = env := by
+  constructor <;> simp [walkStmt]
+
+/-- the control variable of `for each` is declared in the scope holding the loop: it is visible after the loop
+    (by `scope_one_declaration` nothing else the loop body declares is) -/
+theorem foreach_variable_scope (c : TCtx) (env : Env) (v s : String) (b : Block) :
+    (findVar c (walkStmt c env (.forEach v s b)).1 v).isSome = true := by
+  simp only [walkStmt, declareIfNew]
+  cases h : findVar c env v with
+  | some x => simp [h]
+  | none =>
+    simp only
+    split <;> simp [findVar_declare_same]
+
+/-- selecting into / creating / creating an event into a visible variable declares nothing -/
+theorem redeclaration_is_noop (c : TCtx) (env : Env) (n kl : String) (many : Bool) (v : VarInfo)
+    (h : findVar c env n = some v) :
+    declareIfNew c env n many kl = env ∧ declareEvent c env n = env := by
+  simp [declareIfNew, declareEvent, h]
+
 /-! ### the recipe table conforms to the generated schema -/
 
 /-- For each kind of instance the prebuilder creates, the links its recipe relates give it exactly one partner
@@ -169,5 +229,22 @@ example : typeWalk demoT demoB =
      ("V_BIN", some "boolean")] := by decide
 
 example : (required "ACT_AI").length = 3 ∧ (required "V_VAL").length = 2 := by decide +kernel
+
+/-- scopes: `t` declared inside the `if` block is gone after it; the second `t = …` is ANOTHER variable (a string
+    this time); `x` assigned inside the block is the outer `x`; the event variable is a transient of type inst<Event> -/
+def demoS : Block :=
+  .cons (.assign (.var "x") (.int "1"))
+  (.cons (.if_ (.bool "true")
+      (.cons (.assign (.var "t") (.int "2")) (.cons (.assign (.var "x") (.var "t")) .nil)) .nil .none)
+  (.cons (.assign (.var "t") (.str "\"s\""))
+  (.cons (.createEvt "ev" "DOG1" (some "'fed'") (.cons "n" (.var "x") .nil) (.cls "DOG"))
+  (.cons (.genPre (.var "ev")) .nil))))
+
+example : varWalk demoT demoS =
+    [("x", some "integer"), ("t", some "integer"), ("t", some "string"), ("ev", some "inst<Event>")] := by decide
+example : typeWalk demoT demoS =
+    [("V_LIN", some "integer"), ("V_TVL", some "integer"), ("V_LBO", some "boolean"), ("V_LIN", some "integer"),
+     ("V_TVL", some "integer"), ("V_TVL", some "integer"), ("V_TVL", some "integer"), ("V_LST", some "string"),
+     ("V_TVL", some "string"), ("V_TVL", some "integer"), ("V_TVL", some "inst<Event>")] := by decide
 
 end PyxProps.C06
